@@ -367,10 +367,14 @@ def write_pad_codewords(buff, version, capacity, length):
     # character position in Micro QR Code versions M1 and M3 symbols shall be
     # represented as 0000.
     write = buff.extend
+    pad_codewords = ((1, 1, 1, 0, 1, 1, 0, 0), (0, 0, 0, 1, 0, 0, 0, 1))
     if version in (consts.VERSION_M1, consts.VERSION_M3):
-        write([0] * (capacity - length))
+        write([0] * (-length % 8 if capacity - length >= 4 + (-length % 8) else 0))
+        length = len(buff)
+        for i in range((capacity - length) // 8):
+            write(pad_codewords[i % 2])
+        write([0] * (capacity - len(buff)))
     else:
-        pad_codewords = ((1, 1, 1, 0, 1, 1, 0, 0), (0, 0, 0, 1, 0, 0, 0, 1))
         for i in range(capacity // 8 - length // 8):
             write(pad_codewords[i % 2])
 
